@@ -165,7 +165,7 @@ PD_OPS = ["pd_compress", "pd_expand", "pd_standardize_prefix", "pd_standardize_c
 PD_CELLS = CELLS + ["a", "A1", "zz"]
 
 
-def check_pd(conv_idx, op, cells, column_pos, labelled, target, strict, passthrough, ambiguous, ctx=None):
+def check_pd(conv_idx, op, cells, column_pos, labelled, target, strict, passthrough, ambiguous, index_kind="range", ctx=None):
     import pandas as pd
 
     fails = []
@@ -178,7 +178,9 @@ def check_pd(conv_idx, op, cells, column_pos, labelled, target, strict, passthro
         row[1 - column_pos] = OTHER[i % len(OTHER)]
         rows.append(row)
     labels = ["c0", "c1", "c2"] if labelled else [0, 1, 2]
-    df = pd.DataFrame(rows, columns=labels)
+    n_ = len(rows)
+    index = {"range": None, "reversed": list(range(n_ - 1, -1, -1)), "offset": list(range(10, 10 + n_)), "strings": [f"r{n_ - i}" for i in range(n_)]}[index_kind]
+    df = pd.DataFrame(rows, columns=labels, index=index)
     column = labels[column_pos]
     tgt = {"none": None, "new": ("t" if labelled else 7), "other": labels[1 - column_pos], "empty-label": ""}[target]
     before = df.copy(deep=True)
@@ -187,7 +189,7 @@ def check_pd(conv_idx, op, cells, column_pos, labelled, target, strict, passthro
     kw = dict(strict=strict, passthrough=passthrough)
     if op in ("pd_compress", "pd_expand"):
         kw["ambiguous"] = ambiguous
-    where = f"{op}(converter {conv_idx}, column={column!r}, target_column={tgt!r}, {kw}) on cells {cells}"
+    where = f"{op}(converter {conv_idx}, column={column!r}, target_column={tgt!r}, {kw}) on cells {cells} (index {index_kind})"
     try:
         getattr(conv, op)(df, column=column, target_column=tgt, **kw)
         exc = None
@@ -255,6 +257,7 @@ def units(tier, seed):
     T = tables(tier)
     us = [{"kind": "file", "tier": tier, "tables": ch} for ch in chunks(T, 96)]
     us += [{"kind": "pd", "tier": tier, "part": i, "of": 32} for i in range(32)]
+    us.append({"kind": "history"})
     return us
 
 
@@ -281,10 +284,19 @@ def pd_cases(tier):
                         for strict, passthrough, ambiguous in FLAGS:
                             if ambiguous and op not in ("pd_compress", "pd_expand"):
                                 continue
-                            yield 0, op, cells, column_pos, labelled, target, strict, passthrough, ambiguous
+                            for index_kind in (("range", "reversed", "offset", "strings") if len(cells) >= 2 and target in ("none", "new") else ("range",)):
+                                yield 0, op, cells, column_pos, labelled, target, strict, passthrough, ambiguous, index_kind
 
 
 def run_unit(unit, ctx):
+    if unit["kind"] == "history":
+        for op in ("file_compress", "file_expand") + tuple(PD_OPS):
+            for passthrough in (False, True):
+                for ambiguous in ((False, True) if op in ("file_compress", "file_expand", "pd_compress", "pd_expand") else (False,)):
+                    args = [op, passthrough, ambiguous]
+                    for sig, msg in check_history(*args, ctx=ctx)[:2]:
+                        ctx.violation("C16/" + sig, msg, {"kind": "history", "args": args})
+        return
     if unit["kind"] == "file":
         for table in unit["tables"]:
             for args in file_cases(table):
@@ -306,7 +318,53 @@ def run_unit(unit, ctx):
                     ctx.violation("C16/" + sig, msg, case)
 
 
+def check_history(op, passthrough, ambiguous, ctx=None):
+    """Bulk call, then the live converter learns the unknown prefix / URI prefix through a merge, then the same bulk call
+    again: every bulk result must equal the scalar results of a converter freshly built from the current records."""
+    import copy
+
+    import pandas as pd
+
+    fails = []
+    conv = CONVERTERS[0]()
+    cells = ["zz:1", "http://q/1", "a:1", "zz", "http://x/1"]
+    steps = [None,
+             lambda: conv.add_prefix("a", "http://x/", prefix_synonyms=["zz"], merge=True),
+             lambda: conv.add_record(Record(prefix="a", uri_prefix="http://q/"), merge=True),
+             lambda: conv.add_prefix("brandnew", "http://brandnew/")]
+    for i, step in enumerate(steps):
+        if step is not None:
+            step()
+        fresh = Converter(copy.deepcopy(conv.records))
+        expected, err, _ = scalar_results(scalar_for(fresh, op, ambiguous), cells, False, passthrough)
+        where = f"{op}(passthrough={passthrough}, ambiguous={ambiguous}) after {i} modification(s) of the live converter, cells {cells}"
+        if op.startswith("pd_"):
+            df = pd.DataFrame([[c, "k"] for c in cells], columns=["c0", "c1"])
+            kw = dict(strict=False, passthrough=passthrough)
+            if op in ("pd_compress", "pd_expand"):
+                kw["ambiguous"] = ambiguous
+            getattr(conv, op)(df, column="c0", **kw)
+            got = [None if pd.isna(v) else v for v in df["c0"].tolist()]
+        else:
+            path = os.path.join(tmpdir(), f"{os.getpid()}.hist.tsv")
+            with open(path, "w", newline="", encoding="utf-8") as fh:
+                csv.writer(fh, delimiter="\t").writerows([[c, "k"] for c in cells])
+            getattr(conv, op)(path, 0, header=False, strict=False, passthrough=passthrough, ambiguous=ambiguous)
+            with open(path, newline="", encoding="utf-8") as fh:
+                got = [r[0] or None for r in csv.reader(fh, delimiter="\t")]
+            expected = [e or None for e in expected]
+        if ctx is not None:
+            ctx.count("transitions")
+            ctx.count("history_bulk_calls")
+        if got != expected:
+            fails.append((f"bulk-result-stale-after-converter-changed/{op}", f"{where}: bulk gives {got}, scalar calls on a fresh converter give {expected}"))
+            break
+    return fails
+
+
 def replay(case):
+    if case["kind"] == "history":
+        return [("C16/" + s, m) for s, m in check_history(*case["args"])]
     if case["kind"] == "file":
         f = check_file(*case["args"])
     else:
@@ -322,7 +380,8 @@ def describe(tier):
         "quoting-sensitive cells, plus tables with a short or blank (malformed) row at every position among 0..3 good rows; x 2 converters "
         "(delimiters ':' and '/') x file_compress/file_expand x column index x header flag x separator x 8 flag combinations; data frames: all "
         f"tables of 0..{full} rows x 5 pd_* operations x column position x labelled/integer column labels x target_column in {{None, new, existing "
-        "other, empty-string label}} x flags; expected values from the scalar method per cell; any raise of a file operation must leave the "
+        "other, empty-string label}} x index in {{default, reversed, offset, string labels}} x flags; bulk call - merge into the live converter - "
+        "bulk call again for all 7 operations; expected values from the scalar method per cell; any raise of a file operation must leave the "
         "bytes unchanged; distinct_nontrivial = distinct (operation, table, column, header, strict, position of the first failing row)",
         "bounds": {"rows_full_alphabet": full, "rows_small_alphabet": full + 1},
         "exhaustive": True,
@@ -331,4 +390,4 @@ def describe(tier):
 
 
 def required_counters(tier):
-    return ["validated", "file_ok", "file_raised", "first_failing_row_0", "first_failing_row_1", "first_failing_row_2", "pd_ok", "pd_raised", "pd_with_missing_results"]
+    return ["validated", "file_ok", "file_raised", "first_failing_row_0", "first_failing_row_1", "first_failing_row_2", "pd_ok", "pd_raised", "pd_with_missing_results", "history_bulk_calls"]
